@@ -3,6 +3,7 @@
 # verus unit -> witness search (native, on the real code)
 WITNESS = {
     "partition": {"target": "src/common/partition.rs", "src": "units/partition/witness.rs"},
+    "toi": {"target": "src/sender/toiallocator.rs", "src": "units/toi/witness.rs"},
 }
 
 PROPS = {
@@ -18,6 +19,22 @@ PROPS = {
                  "L < 2^48, E <= 65535 and SBN < N, no intermediate overflow; proved unbounded by Verus on the extracted real text",
         "note": "trusted: Verus/Z3, the extractor's rewrite list, num-integer div_ceil/div_floor contracts (one-line bodies transcribed)",
     },
+}
+
+PROPS["C15"] = {
+    "level": "proof",
+    "verus": ["toi"],
+    "kani": [],
+    "structural": [],
+    "not_covered": ["decimal TOI string in the FDT XML (to_string of the same u128)", "termination of the allocation loop",
+                    "Send/Sync of Sender and Toi handles (rustc's auto-trait check, not a contract)"],
+    "design_ref": "DESIGN.md section 6, C15",
+    "technique": "Verus data-structure invariant (alloc_wf) on the extracted ToiAllocatorInternal with whole-view postconditions over HashSet<u128>",
+    "claim": "every allocate/release/new preserves the allocator invariant (next TOI non-zero, within the configured width, not reserved; "
+             "every reserved TOI non-zero and within width); allocate returns a fresh value and reserved' == reserved + {ret}; release removes exactly its TOI; "
+             "holds for every history by induction over the contracts, every width and every initial value incl. the random one",
+    "note": "trusted: Verus/Z3, vstd HashSet<u128> model, Mutex gives mutual exclusion (sequential invariant = lock invariant), RNG returns any u128; "
+            "termination of allocate unproved",
 }
 
 NOT_APPLICABLE = {
